@@ -606,7 +606,13 @@ func connScenario(r *rand.Rand, thorough bool, single bool, stallAt int) {
 				mu.Lock()
 				curTag[me] = tag
 				mu.Unlock()
-				conn.SetDeadline(time.Now().Add(deadline))
+				dl := deadline
+				if stallAt >= 0 && i >= 2 {
+					// the calls after the one that gave up in the middle of the stalled body must still be there when the rest
+					// of that body arrives: if the conn was (wrongly) kept, that is when the leftover is served to them
+					dl = b.stallFor + 300*time.Millisecond
+				}
+				conn.SetDeadline(time.Now().Add(dl))
 				res := ""
 				switch op {
 				case "offset":
